@@ -165,8 +165,8 @@ def run_online(spec, rec: Recorder):
                     if use_dns:
                         rec.count("dns_discoveries")
                         exp_q = "_ldap._tcp.dc._msdcs" + ("." + cfg.domain if cfg.domain else "")
-                        if len(dns_.queries) != 1 or dns_.queries[0][1] != exp_q:
-                            rec.violation("dns-query", f"{api}: DNS queries {dns_.queries}, expected one for {exp_q}", wit)
+                        if not dns_.queries or any(qq[1] != exp_q for qq in dns_.queries):
+                            rec.violation("dns-query", f"{api}: DNS queries {dns_.queries}, expected SRV lookups for {exp_q} only", wit)
                         if dc.connect_log and dc.connect_log[0][1] != host:
                             rec.violation("dns-host", f"{api}: connected to {dc.connect_log[0]} but discovery chose {host}", wit)
                     elif dc.connect_log and any(hh != host for (_, hh, _) in dc.connect_log):
